@@ -23,8 +23,8 @@ def h_dt(f, N1, ext, same=False):
         A = env.A
         w2 = dt.trace(env, vs, N1 + ext)
         w1 = {v: w2[v][:N1] for v in vs}
-        s1 = dt.make_spec('offline', 'out = ' + text(f), vs)
-        s2 = s1 if same else dt.make_spec('offline', 'out = ' + text(f), vs)     # same: one object evaluates the growing trace
+        s1 = dt.make_spec('offline~', 'out = ' + text(f), vs)
+        s2 = s1 if same else dt.make_spec('offline~', 'out = ' + text(f), vs)     # same: one object evaluates the growing trace
         r1 = [p[1] for p in dt.offline(s1, w1, N1)]
         r2 = [p[1] for p in dt.offline(s2, w2, N1 + ext)]
         env.observe('short', r1)
@@ -58,8 +58,8 @@ def h_ct(f, ns, ext, same=False):
         A = env.A
         full = {v: ct.signal(env, v, n + e, 'zero') for v, n, e in zip(vs, ns, ext)}
         short = {v: full[v][:n] for v, n in zip(vs, ns)}
-        s1 = ct.make_spec('offline', 'out = ' + text(f), vs)
-        s2 = s1 if same else ct.make_spec('offline', 'out = ' + text(f), vs)
+        s1 = ct.make_spec('offline~', 'out = ' + text(f), vs)
+        s2 = s1 if same else ct.make_spec('offline~', 'out = ' + text(f), vs)
         o1 = [list(p) for p in s1.evaluate(*[[v, [list(p) for p in short[v]]] for v in vs])]
         o2 = [list(p) for p in s2.evaluate(*[[v, [list(p) for p in full[v]]] for v in vs])]
         env.observe('short', o1)
